@@ -1762,6 +1762,7 @@ impl Exec {
                 let bor = u64o(a, "borrowed");
                 let fees = [a.get("protocol_sf").and_then(parse_i128), a.get("referrer_sf").and_then(parse_i128), a.get("pending_sf").and_then(parse_i128)];
                 let slot = u64o(a, "slot");
+                let (avail, supply) = (u64o(a, "avail"), u64o(a, "supply"));
                 let refresh = boolo(a, "refresh") == Some(true);
                 let now_slot = self.env.world.clock.slot;
                 self.env.set_kamino_reserve(&name, &|r| {
@@ -1779,6 +1780,12 @@ impl Exec {
                     }
                     if let Some(sl) = slot {
                         r.slot = sl;
+                    }
+                    if let Some(x) = avail {
+                        r.available_amount = x;
+                    }
+                    if let Some(x) = supply {
+                        r.mint_total_supply = x;
                     }
                     if refresh {
                         r.slot = now_slot;
